@@ -13,9 +13,17 @@ NPROC = min(16, os.cpu_count() or 4)
 def pool_map(fn, jobs, nproc=NPROC):
     if not jobs:
         return []
+    # an executor rather than multiprocessing.Pool: when a worker process dies (e.g. killed by the operating system for
+    # lack of memory) Pool.map waits for ever, the executor reports it -- a machinery failure, not a hang
+    from concurrent.futures import ProcessPoolExecutor
+    from concurrent.futures.process import BrokenProcessPool
     ctx = mp.get_context("fork")
-    with ctx.Pool(min(nproc, len(jobs))) as pool:
-        return pool.map(fn, jobs, chunksize=1)
+    try:
+        with ProcessPoolExecutor(max_workers=min(nproc, len(jobs)), mp_context=ctx) as ex:
+            return list(ex.map(fn, jobs, chunksize=1))
+    except BrokenProcessPool:
+        raise report.Machinery("a worker process died while %s was running (killed by the operating system?)"
+                               % getattr(fn, "__name__", "a job"))
 
 
 # ---------------------------------------------------------------------------
